@@ -9,7 +9,8 @@
    recovered g h        : a fresh instance after setup, then recover(h).
    pview (obs g s)      : num_proposals, num_feedbacks, population with fitness and ids, de-duplication
                           cache, and the same of a wrapped feedback-driven generator. *)
-From PG Require Import Common.Tactics Model.Recover Proofs.RecoverBase Proofs.RecoverEvo Proofs.RecoverDedup Proofs.RecoverMain Proofs.RecoverParts Proofs.RecoverFresh.
+From PG Require Import Common.Tactics Model.Recover Proofs.RecoverBase Proofs.RecoverEvo Proofs.RecoverDedup Proofs.RecoverMain Proofs.RecoverParts Proofs.RecoverFresh Proofs.RecoverGeno.
+From PG Require Model.Geno.
 
 (* Every configuration the syntax can name — Sweeping, seeded Random, Evolution with any initialiser /
    reproduction table / update selector (None, Last n, Top n, newest generation, recorded table), Deduping over
@@ -121,6 +122,19 @@ Theorem C15_shipped_algorithms : forall (m : Z) (a : alg) (rw : Z -> Z) (evs : l
    r_ok g r = true -> pview (obs g (recovered g (r_hist g r))) = pview (obs g (r_st g r))).
 Proof. exact shipped_recover. Qed.
 Print Assumptions C15_shipped_algorithms.
+
+(* The abstract space of this model (DNAs as indices, Sweeping counts up) is the enumeration of a real DNASpec:
+   for every finite well-formed spec s of Model/Geno.v (C11), after c proposals, the further proposals of the
+   index model — decoded through all_valid s — are exactly what Sweeping._propose yields over s (next_dna of
+   the last proposed DNA; first_dna at the start).  With C15_continuation: a recovered Sweeping continues with
+   exactly those DNAs. *)
+Theorem C15_sweeping_over_spec : forall (s : Geno.dspec), Geno.finite s = true -> Geno.wf s = true ->
+  forall (f c np nf : nat), c <= length (Geno.all_valid s) ->
+  map (nth_error (Geno.all_valid s))
+      (proposals (continue_from (Sweeping (Z.of_nat (length (Geno.all_valid s)))) f (mkSw np nf (last_idx c))))
+  = map Some (Geno.sweeping s f (last_dna s c)).
+Proof. exact sweeping_over_spec. Qed.
+Print Assumptions C15_sweeping_over_spec.
 
 (* The Deduping wrapper preserves recoverability of ANY generator it wraps (not only those of the syntax). *)
 Theorem C15_dedup_wrapper : forall (g : gen) (m : Z) (hm auto maxdup maxatt : nat),
